@@ -292,7 +292,7 @@ impl Run {
             deadline_s = if tier == Tier::Quick { 240.0 } else { 3.0 * 3600.0 };
         }
         silence_panics();
-        crumbs::install(if replay.is_some() { 60 } else { 180 });
+        crumbs::install(if replay.is_some() { 20 } else { 60 });
         let debug = cfg!(debug_assertions);
         Run {
             property: property.to_string(),
@@ -1312,6 +1312,11 @@ pub mod crumbs {
         tick: AtomicU64::new(0),
     };
     pub static TABLE: [Slot; SLOTS] = [EMPTY; SLOTS];
+    thread_local! {
+        /// the slot of the calling thread (const-initialised, no destructor: a plain TLS read, usable
+        /// from the signal handler, which runs on the thread that raised the signal)
+        static MINE: std::cell::Cell<usize> = const { std::cell::Cell::new(usize::MAX) };
+    }
 
     /// claim a slot for the calling worker thread
     pub fn claim(cfg: &str, plan: &str) -> Option<usize> {
@@ -1322,6 +1327,7 @@ pub mod crumbs {
                 s.plan_ptr.store(plan.as_ptr() as usize, Relaxed);
                 s.plan_len.store(plan.len(), Relaxed);
                 s.op_len.store(0, Relaxed);
+                MINE.with(|m| m.set(i));
                 return Some(i);
             }
         }
@@ -1331,6 +1337,7 @@ pub mod crumbs {
         if let Some(i) = i {
             TABLE[i].op_len.store(0, Relaxed);
             TABLE[i].busy.store(false, Relaxed);
+            MINE.with(|m| m.set(usize::MAX));
         }
     }
     #[inline]
@@ -1413,7 +1420,12 @@ pub mod crumbs {
         }
     }
     extern "C" fn on_signal(_sig: i32) {
-        dump(b"CRASH-AT", None);
+        let mine = MINE.with(|m| m.get());
+        if mine != usize::MAX {
+            dump(b"CRASH-AT", Some(mine));
+        } else {
+            dump(b"CRASH-AT", None);
+        }
         unsafe { _exit(70) }
     }
     /// install the crash handlers and start the hang watchdog
